@@ -51,6 +51,29 @@ ASSUMPTIONS = ['validators are harness coroutines (verdict chosen by the history
 A, AB, ABC, X = P.A, P.AB, P.ABC, P.X
 LATENCIES = ['imm', 'before', 'at0', 'at1', 'at2', 'after', 'never', 'just-before']
 
+# VALIDATOR OUTCOMES.  A validator consulted by the library accepts, rejects (every verdict value) or TERMINATES WITH AN
+# EXCEPTION ('raise:<Class>', _pipeline.raise_outcomes(): every exception class ndn.types defines + Exception, TimeoutError,
+# CancelledError, OSError) - what a validator that fetches a certificate does when the fetch times out, is nacked or the
+# face goes down.  A validator that raised has not accepted: nothing may reach the handler / the caller as valid.
+_RAISES = []
+
+
+def raises():
+    if not _RAISES:
+        _RAISES.extend(P.raise_outcomes())
+    return _RAISES
+
+
+def accepts(fe, v):
+    """Did the validator ACCEPT (the only outcome after which a handler / the caller may get the packet)."""
+    if P.is_raise(v):
+        return False
+    return (v in (3, 4)) if fe == 'v2' else P.v1_truth(v)
+
+
+def vclass(v):
+    return v if P.is_raise(v) else f'verdict:{v}'
+
 
 def data_case(rng, fe, v, lat):
     """Interest 9 on /a/b with lifetime 100 expressed at t0; Data at t0+20; verdict v with the given latency."""
@@ -84,7 +107,8 @@ def data_oracle(ctx, fe, h, D, v, lat, r):
     case = {'frontend': fe, 'history': h}
     site = ('appv2.PendingIntEntry.satisfy' if fe == 'v2' else 'app.NDNApp._wait_for_data')
     got = r['completion'].get(9)
-    passes = (v in (3, 4)) if fe == 'v2' else P.v1_truth(v)
+    passes = accepts(fe, v)
+    raised = P.is_raise(v)
     in_time = lat in ('imm', 'before', 'just-before')
     kind = got[0][0] if got else None
     if kind == 0:
@@ -97,8 +121,14 @@ def data_oracle(ctx, fe, h, D, v, lat, r):
             ctx.violation(site, 'data-without-validator', 'payload returned without the validator being consulted', case)
     if in_time and passes and kind != 0:
         ctx.violation(site, 'accepted-data-not-returned', f'validator accepted in time but the result is {got}', case)
-    if in_time and not passes:
-        want_v = {5: 1}.get(v, v) if fe == 'v2' else 0
+    if in_time and raised and not (fe == 'v2' and v in P.RAISE_AS_TIMEOUT_V2):
+        # the validator terminated with an exception: no verdict to report; whatever the caller gets (the exception, a
+        # timeout), it is not the payload - checked above; appv2 has nothing to hand out before the deadline
+        if fe == 'v2' and kind not in (None, 0, 3):
+            ctx.violation(site, f'outcome-after-validator-exception:{kind}',
+                          f'the validator terminated with {v}: expected a timeout at the deadline, got {got}', case)
+    elif in_time and not passes:
+        want_v = ({5: 1}.get(v, v) if fe == 'v2' else 0) if not raised else 1
         if kind != 1 or got[0][1] != 5 or got[0][2] != want_v:
             ctx.violation(site, f'failure-without-packet-or-verdict:{v}',
                           f'verdict {v} must yield ValidationFailure carrying the packet and the verdict, got {got}', case)
@@ -109,6 +139,78 @@ def data_oracle(ctx, fe, h, D, v, lat, r):
                           f'legacy front-end: validator latency {lat} relative to the deadline, expected a timeout, got {got}', case)
     elif not in_time and kind not in (0, 3):
         ctx.violation(site, f'slow-validator-not-timeout:{kind}', f'validator latency {lat}: expected a timeout, got {got}', case)
+
+
+def raised_ids(h):
+    """Interests whose Data validator terminates with an exception somewhere in the history."""
+    ids = set()
+    for ev in h:
+        if ev[0] == 'express' and ev[6][0] == 'imm' and P.is_raise(ev[6][1]):
+            ids.add(ev[1])
+        elif ev[0] == 'vdone' and P.is_raise(ev[2]):
+            ids.add(ev[1])
+    return ids
+
+
+def inject_raises(rng, h, p=0.5):
+    """Replace verdicts of Data validators (immediate ones and 'vdone' events) by 'terminates with an exception'."""
+    out = []
+    for ev in h:
+        if ev[0] == 'express' and ev[6][0] == 'imm' and rng.random() < p:
+            ev = ev[:6] + (('imm', rng.choice(raises())),) + ev[7:]
+        elif ev[0] == 'vdone' and rng.random() < p:
+            ev = ev[:2] + (rng.choice(raises()),) + ev[3:]
+        out.append(ev)
+    return out
+
+
+def verdict_oracle(ctx, fe, h, r):
+    """ANY history: an expressed Interest completes with the payload only if its validator ACCEPTED - some outcome the
+    history gives that validator (its immediate one, or a 'vdone' event) is an accepting verdict; rejections and
+    validators that terminate with an exception never are."""
+    site = ('appv2.PendingIntEntry.satisfy' if fe == 'v2' else 'app.NDNApp._wait_for_data')
+    given = {}
+    for ev in h:
+        if ev[0] == 'express':
+            given.setdefault(ev[1], [])
+            if ev[6][0] == 'imm':
+                given[ev[1]].append(ev[6][1])
+        elif ev[0] == 'vdone' and ev[1] in given:
+            given[ev[1]].append(ev[2])
+    for i, vs in given.items():
+        got = r['completion'].get(i)
+        if got is not None and got[0][0] == 0 and not any(accepts(fe, v) for v in vs):
+            ctx.violation(site, 'data-without-accepting-verdict:' + (vclass(vs[0]) if vs else 'no-outcome'),
+                          f'Interest {i} completed with the payload {got}; its validator never accepted '
+                          f'(outcomes given by the history: {vs})', {'frontend': fe, 'history': h})
+        if any(P.is_raise(v) for v in vs):
+            ctx.stat(f'{fe}.data-validator-raised.' + ('payload' if got and got[0][0] == 0 else 'no-payload'))
+
+
+def check_data(ctx, fe, h, tag):
+    """check_history + verdict_oracle.  Legacy front-end with a Data validator that terminates with an exception: the
+    exception reaches the awaiting caller as it is (the model knows 'the validator did not accept' -> ValidationFailure at
+    the same moment); both sides are compared as 'no payload, at time t' for those Interests, everything else exactly."""
+    rs = raised_ids(h)
+    if fe == 'v2' or not rs:
+        same, m, r = P.check_history(ctx, fe, h, tag, 'C05')
+    else:
+        h = P.fix_digest_names(h)
+        m = P.run_model(ctx, fe, h)
+        r = P.canon_impl(fe, P.run_impl(fe, h))
+
+        def coarse(c):
+            return {i: (((9,), t) if i in rs and o[0] != 0 else (o, t)) for i, (o, t) in c.items()}
+        mc, rc = dict(m), dict(r)
+        mc['completion'], rc['completion'] = coarse(m['completion']), coarse(r['completion'])
+        same = P.compare(ctx, 'pipeline', fe, h, mc, rc)
+        if r['errors'] or r['loop_errors']:
+            ctx.violation('app.NDNApp._receive', 'internal-error:' + str((r['errors'] or r['loop_errors'])[0][1]),
+                          f'internal error: {r["errors"]} {r["loop_errors"]}', {'frontend': fe, 'history': h})
+        ctx.case((fe, tuple(map(repr, h))), len(h) > 2,
+                 {'frontend': fe, 'tag': tag, 'history': h, 'model': m['completion'], 'impl': r['completion']}, f'{fe}.{tag}')
+    verdict_oracle(ctx, fe, h, r)
+    return same, m, r
 
 
 ROUTES = [(A, True), (AB, False), (X, False)]          # attached prefixes: /a with a validator, /a/b and /x without
@@ -245,6 +347,14 @@ def gate_oracle(ctx, fe, h, r, site):
                               f'Interest {kk}: the validator in force is {want or "the library default"}, '
                               f'the application-supplied validators consulted were {got}', case)
         ctx.stat(f'{fe}.in-force.{src}')
+        if P.is_raise(v) and kk in who:
+            ctx.stat(f'{fe}.interest-validator-raised.{src}.' + ('handler-called' if kk in called else 'dropped'))
+
+
+# placements under which EVERY validator outcome 'terminates with an exception' is tried in the quick tier (thorough: all
+# placements): together they consult the route's own validator, the replaced application-wide one (legacy) and, after it
+# was restored, the library default again
+RAISE_SCHEMES = {'v1': ('after-routes', 'replaced-restored'), 'v2': ('never',)}
 
 
 def interest_table(ctx, fe, only=None):
@@ -254,7 +364,10 @@ def interest_table(ctx, fe, only=None):
             continue
         if fe == 'v2' and not ctx.thorough and scheme not in ('never', 'never+shutdown', 'after-routes', 'across-shutdown'):
             continue          # appv2 has no application-wide validator: quick keeps four placements, thorough all
-        for v in (range(5) if fe == 'v2' else range(len(P.V1_VALUES))):
+        outcomes = list(range(5) if fe == 'v2' else range(len(P.V1_VALUES)))
+        if ctx.thorough or scheme in RAISE_SCHEMES[fe]:
+            outcomes += raises()
+        for v in outcomes:
             for hp in (False, True, 2):
                 for sig in (0, 1, 2):
                     for dok in (True, False):
@@ -301,6 +414,8 @@ def rand_gate_history(rng, fe):
             sig = rng.choice((0, 1, 1, 2))
             dok = True if (not hp and sig == 0) else rng.random() < 0.8
             v = rng.choice(range(5) if fe == 'v2' else range(len(P.V1_VALUES)))
+            if rng.random() < 0.2:
+                v = rng.choice(raises())          # the validator (if one is consulted) terminates with an exception
             h.append(('interest', k, rng.choice(PROBES), hp, sig, dok, v, t))
             k += 1
     return h
@@ -391,6 +506,9 @@ def rand_susp_history(rng, fe):
     waiting = []
     pool = [A, AB, S_NAME, X, ABC]
     nv = 5 if fe == 'v2' else len(P.V1_VALUES)
+
+    def some_verdict():
+        return rng.choice(raises()) if rng.random() < 0.2 else rng.randrange(nv)
     for _ in range(rng.randint(5, 16)):
         t += rng.choice((1, 5, 10))
         a = rng.choice(['attach'] * 4 + ['detach'] * 3 + ['setdefault'] * 2 + ['arrive'] * 5 + ['interest'] * 2 + ['ivdone'] * 5)
@@ -410,7 +528,7 @@ def rand_susp_history(rng, fe):
         elif a == 'ivdone':
             if waiting:
                 kk = waiting.pop(rng.randrange(len(waiting)))
-                h.append(('ivdone', kk, rng.choice((P.PASS[fe], P.PASS[fe], rng.randrange(nv))), t))
+                h.append(('ivdone', kk, rng.choice((P.PASS[fe], P.PASS[fe], some_verdict())), t))
         else:
             hp = rng.choice((False, True, 2))
             sig = rng.choice((0, 1, 1, 2))
@@ -420,12 +538,12 @@ def rand_susp_history(rng, fe):
                 h.append(('arrive', k, n, hp, sig, dok, t))
                 waiting.append(k)
             else:
-                h.append(('interest', k, n, hp, sig, dok, rng.choice((P.PASS[fe], rng.randrange(nv))), t))
+                h.append(('interest', k, n, hp, sig, dok, rng.choice((P.PASS[fe], some_verdict())), t))
             k += 1
     for kk in waiting:
         if rng.random() < 0.8:
             t += 5
-            h.append(('ivdone', kk, rng.choice((P.PASS[fe], rng.randrange(nv))), t))
+            h.append(('ivdone', kk, rng.choice((P.PASS[fe], some_verdict())), t))
     h.append(('advance', t + 100))
     return h
 
@@ -542,6 +660,9 @@ def susp_oracle(ctx, fe, h, r, site):
         if plain and kk in who:
             ctx.violation(site, 'validator-consulted-for-plain', 'a plain Interest was handed to a validator', case)
         ctx.stat(f'{fe}.suspended.' + ('no-route' if i['route'] is None else 'delivered' if got else 'dropped'))
+        if P.is_raise(v) and kk in who:
+            ctx.stat(f'{fe}.interest-validator-raised.' + ('suspended.' if i['suspends'] else 'at-once.')
+                     + ('handler-called' if got else 'dropped'))
 
 
 def run_susp(ctx, fe, h, key, sample, stratum):
@@ -573,6 +694,23 @@ def suspended_table(ctx, fe):
                                 run_susp(ctx, fe, h, (fe, 'susp', upd, where, base_v, attrs, v, dflt0, second),
                                          {'update': upd, 'where': where, 'route_validator': base_v, 'attrs': attrs, 'verdict': v},
                                          f'{fe}.suspended.{upd}.{where}')
+    # the suspended validator TERMINATES WITH AN EXCEPTION when it is resumed (the certificate fetch it was waiting for
+    # timed out / was nacked / the face went down): every exception class x every update of the routing state in the window
+    # (thorough: also before / after, all attribute classes, a second Interest that is accepted)
+    for upd in S_UPDATES:
+        for where in (('before', 'window', 'after') if ctx.thorough else ('window',)):
+            for base_v in (True, False):
+                for attrs in (S_ATTRS if ctx.thorough else S_ATTRS[:3]):
+                    for v in raises():
+                        for dflt0 in ((False, True) if fe == 'v1' else (False,)):
+                            for second in ((None, 'susp') if ctx.thorough else (None,)):
+                                h = susp_history(fe, base_v, upd, where, attrs, v, dflt0, second)
+                                if second is not None:
+                                    # the second Interest (answered first) is ACCEPTED, the first one's validator raises
+                                    h = [(e[:2] + (P.PASS[fe],) + e[3:]) if e[0] == 'ivdone' and e[1] == 1 else e for e in h]
+                                run_susp(ctx, fe, h, (fe, 'susp-raise', upd, where, base_v, attrs, v, dflt0, second),
+                                         {'update': upd, 'where': where, 'route_validator': base_v, 'attrs': attrs, 'verdict': v},
+                                         f'{fe}.suspended-raises.{upd}.{where}')
     # corrupted digest: dropped before any validator, whatever happens to the routes
     for upd in S_UPDATES:
         for attrs in S_ATTRS[:4]:
@@ -599,16 +737,21 @@ def run(ctx):
         random_susp(ctx, fe, ctx.n(300, 6000))
         reps = ctx.n(3, 60)
         for _ in range(reps):
-            for v in P.verdicts(fe):
+            for v in P.verdicts(fe) + raises():
                 for lat in LATENCIES:
                     h, D = data_case(ctx.rng, fe, v, lat)
-                    same, m, r = P.check_history(ctx, fe, h, f'verdict.{lat}', 'C05')
+                    same, m, r = check_data(ctx, fe, h, f'verdict.{lat}')
                     data_oracle(ctx, fe, h, D, v, lat, r)
         for tag, h in P.targeted(fe):
-            P.check_history(ctx, fe, h, 'targeted.' + tag, 'C05')
+            check_data(ctx, fe, h, 'targeted.' + tag)
         for k in range(ctx.n(300, 10000)):
             h = P.rand_history(ctx.rng, fe, wf=True)
-            P.check_history(ctx, fe, h, 'random', 'C05')
+            check_data(ctx, fe, h, 'random')
+        # the same random histories with Data validators that terminate with an exception instead of answering
+        for k in range(ctx.n(200, 5000)):
+            h = inject_raises(ctx.rng, P.rand_history(ctx.rng, fe, wf=True))
+            if raised_ids(h):
+                check_data(ctx, fe, h, 'random-raises')
 
 
 def replay(ctx, data):
@@ -626,4 +769,4 @@ def replay(ctx, data):
         gate_oracle(ctx, fe, h, r, 'appv2.NDNApp._on_interest' if fe == 'v2' else 'app.NDNApp._on_interest')
         return
     c = P.unjson_case(case)
-    P.check_history(ctx, c['frontend'], c['history'], 'replay', 'C05')
+    check_data(ctx, c['frontend'], c['history'], 'replay')
